@@ -106,7 +106,15 @@ func tTag(c context, s []byte) (context, int) {
 		if specialElements[c.element.name] {
 			ret.state = stateSpecialElementBody
 		}
-		if c.element.name != "" && voidElements[c.element.name] {
+		allVoid := true
+		for _, name := range c.element.names {
+			// The element name may have been chosen by a conditional; only if every
+			// alternative is a void element is there no element content.
+			if !voidElements[name] {
+				allVoid = false
+			}
+		}
+		if c.element.name != "" && voidElements[c.element.name] && allVoid {
 			// Special case: end of start tag of a void element.
 			// Discard unnecessary state, since this element have no content.
 			ret.element = element{}
